@@ -1,39 +1,53 @@
 ------------------------------------------- MODULE Inventory_mc -------------------------------------------
 (* Configurations of Inventory: the trees, compositions and parameter domains used by the exhaustive and emission
    runs.  The design switch LeafVolCut is read from the environment (C02_LEAFVOL = "cut" | "full"; default "full" =
-   the code as it is), the harness sets it after determining which design the code under test implements. *)
+   the code as it is; likewise ScaleRaises from C02_SCALE = "raises" | "ok"), the harness sets it after determining which design the code under test implements. *)
 EXTENDS Inventory, IOUtils
 Z == <<0, 1>>
 Wt == [a |-> 2, b |-> 3, c |-> 5]
+ScaleRaisesEnv == ~("C02_SCALE" \in DOMAIN IOEnv /\ IOEnv.C02_SCALE = "ok")     \* default: the code as it is
 LeafVolCutEnv == "C02_LEAFVOL" \in DOMAIN IOEnv /\ IOEnv.C02_LEAFVOL = "cut"
 
 \* ---- one block of three components (areas 1,2,3; height 2); assembly and core above it with a single child each
-BlkParent == <<4, 4, 4, 5, 6>>
-BlkArea3  == <<1, 2, 3>>
-BlkHeight == (4 :> 2)
-BlkSym    == (4 :> 1)
-BlkN0 == << [a |-> <<1, 1>>, b |-> <<2, 1>>, c |-> Z],
+TBlkParent == <<4, 4, 4, 5, 6>>
+TBlkArea == <<1, 2, 3>>
+TBlkHeight == (4 :> 2)
+TBlkSym    == (4 :> 1)
+TBlkN0 == << [a |-> <<1, 1>>, b |-> <<2, 1>>, c |-> Z],
             [a |-> <<2, 1>>, b |-> Z,        c |-> <<1, 1>>],
             [a |-> Z,        b |-> Z,        c |-> <<3, 1>>] >>
-BlkH0 == << {"a", "b"}, {"a", "c"}, {"c"} >>
-BlkTargets == {1, 3, 4}
-BlkTargetsAll == {1, 2, 3, 4, 5, 6}
+TBlkH0 == << {"a", "b"}, {"a", "c"}, {"c"} >>
+TBlkTargets == {1, 3, 4}
+TBlkTargetsAll == {1, 2, 3, 4, 5, 6}
+TBlkTargetsUp == {3, 4, 5, 6}
 
 \* ---- third core: assembly 10 at the centre (Sym 3) with blocks 7 (leaves 1,2; height 1) and 8 (leaves 3,4; height 2),
 \*      assembly 11 off centre (Sym 1) with block 9 (leaves 5,6; height 3); core 12
-CoreParent == <<7, 7, 8, 8, 9, 9, 10, 10, 11, 12, 12>>
-CoreArea   == <<1, 2, 2, 1, 2, 2>>
-CoreHeight == (7 :> 1) @@ (8 :> 2) @@ (9 :> 3)
-CoreSym    == (7 :> 3) @@ (8 :> 3) @@ (9 :> 1)
-CoreN0 == << [a |-> <<1, 1>>, b |-> <<2, 1>>, c |-> Z],
+TCoreParent == <<7, 7, 8, 8, 9, 9, 10, 10, 11, 12, 12>>
+TCoreArea   == <<1, 2, 2, 1, 2, 2>>
+TCoreHeight == (7 :> 1) @@ (8 :> 2) @@ (9 :> 3)
+TCoreSym    == (7 :> 3) @@ (8 :> 3) @@ (9 :> 1)
+TCoreN0 == << [a |-> <<1, 1>>, b |-> <<2, 1>>, c |-> Z],
              [a |-> <<2, 1>>, b |-> Z,        c |-> <<1, 1>>],
              [a |-> <<1, 1>>, b |-> <<1, 1>>, c |-> Z],
              [a |-> Z,        b |-> Z,        c |-> <<2, 1>>],
              [a |-> <<3, 1>>, b |-> <<1, 1>>, c |-> Z],
              [a |-> Z,        b |-> <<2, 1>>, c |-> <<1, 1>>] >>
-CoreH0 == << {"a", "b"}, {"a", "c"}, {"a", "b"}, {"c"}, {"a", "b"}, {"b", "c"} >>
-CoreTargets == {1, 5, 7, 10, 12}
-CoreTargetsAll == 1..12
+TCoreH0 == << {"a", "b"}, {"a", "c"}, {"a", "b"}, {"c"}, {"a", "b"}, {"b", "c"} >>
+TCoreTargets == {1, 5, 7, 10, 12}
+TCoreTargetsProbe == {1, 5, 7}
+TCoreTargetsAll == 1..12
+
+\* ---- third core with edge assemblies on both edges: 11 centre (Sym 3), 12 and 13 on the 0- and 120-degree edges (Sym 2),
+\*      14 interior (Sym 1); one block each (7,8,9,10); leaves 1,2 | 3,4 | 5 | 6; core 15
+TEdgeParent == <<7, 7, 8, 8, 9, 10, 11, 12, 13, 14, 15, 15, 15, 15>>
+TEdgeArea   == <<1, 2, 2, 1, 3, 2>>
+TEdgeHeight == (7 :> 2) @@ (8 :> 1) @@ (9 :> 2) @@ (10 :> 1)
+TEdgeSym    == (7 :> 3) @@ (8 :> 2) @@ (9 :> 2) @@ (10 :> 1)
+TEdgeN0 == TCoreN0
+TEdgeH0 == TCoreH0
+TEdgeTargets == {3, 8, 12, 15}
+TEdgeTargetsAll == 1..15
 
 \* ---- parameter domains
 ValsQ   == {Z, <<1, 1>>, <<3, 2>>}
@@ -52,7 +66,20 @@ MassesT == MassesQ \cup {<<5, 2>>}
 MapsT   == MapsQ \cup { ("a" :> Z) @@ ("b" :> Z) @@ ("c" :> <<1, 1>>), ("a" :> <<2, 1>>) @@ ("c" :> <<2, 1>>) }
 FracMapsT == FracMapsQ \cup { ("b" :> <<1, 3>>), ("a" :> Z), ("a" :> <<1, 3>>) @@ ("b" :> <<1, 3>>) @@ ("c" :> <<1, 3>>) }
 
+ASSUME PrintT(ToJson([tree |-> Tree]))
 Bound == TLCGet("level") <= MaxLevel
+\* successors are generated only below the last level (TLC evaluates invariants also on states outside the constraint)
+G == TLCGet("level") < MaxLevel
+BSetN == G /\ DoSetN
+BUpdateN == G /\ DoUpdateN
+BSetNs == G /\ DoSetNs
+BScale == G /\ DoScale
+BClear == G /\ DoClear
+BAddMass == G /\ DoAddMass
+BRemoveMass == G /\ DoRemoveMass
+BSetMass == G /\ DoSetMass
+BSetMassFracs == G /\ DoSetMassFracs
+NextB == BSetN \/ BUpdateN \/ BSetNs \/ BScale \/ BClear \/ BAddMass \/ BRemoveMass \/ BSetMass \/ BSetMassFracs
 View  == vars
 Emit  == PrintT(ToJson([lvl |-> TLCGet("level"), from |-> Vars, act |-> act', to |-> Vars', err |-> err']))
 EmitState == PrintT(ToJson([st |-> Vars, obs |-> Obs]))
